@@ -78,6 +78,17 @@ def run(tier):
                     for t in sent:
                         for i, x in enumerate(trees.leaves_of(t)):
                             x['tok'].update(extra.get(i, {}))
+            if rng.random() < 0.25:
+                # trees as the bank readers build them: the rule name of a node is its symbol ('<B1', '>', '<Φ>' ...), i.e. text
+                # with characters that mean something to the XML / HTML layouts
+                def sym_as_name(t):
+                    if t['k'] != 'L':
+                        t['lab'] = t['sym'] if rng.random() < 0.8 else rng.choice(['a&b', '<x>', '"q"'])
+                        for k in t['kids']:
+                            sym_as_name(k)
+                for sent in b:
+                    for t in sent:
+                        sym_as_name(t)
             fresh = {}
             for f in set(seq):
                 fresh[f] = render(P, trees.real_batch(b, random.Random(7)), f, captured)
